@@ -510,6 +510,7 @@ class Explorer:
         self.rnd_mode = False
         self.rnd_pairs = True
         self.rnd_terms = []
+        self.scratch = {}
 
     # -- abstract rounding (sort R~): every IEEE round-to-nearest op satisfies these ground axioms
     def rnd(self, t):
@@ -751,6 +752,7 @@ class Explorer:
             self._axioms = set()
             self.rnd_terms = []
             self.rnd_mode = False
+            self.scratch = {}
             prev, _CUR = _CUR, self
             try:
                 self.body(self)
